@@ -16,7 +16,8 @@ RULE = ("one run = a generated class with 1-3 lists (fixed-size random / non-ran
         "len(list(l)), l[i] == list(l)[i], fixed-size lists keep their length, every constraint "
         "evaluated by the reference over exactly list(l); after each edit the exposed list equals the "
         "reference Python list. Non-trivial = a judged call on a list of length >= 2 after >= 1 edit or "
-        "on a random-size list; distinct = (program shape, op 3-grams).")
+        "on a random-size list; distinct = (program shape, op 3-grams)."
+        " Programs may hold a foreach inside a dynamic block referenced from inline blocks, foreach bodies branching on elements of a non-random list, a foreach below an if below a foreach; pin-probes of points next to each returned solution; witness oracle (pre-call state satisfies everything => the call must not fail).")
 REAL = ["pyvsc (all of src/vsc)", "PyBoolector"]
 STUB = ["user code (generated)", "stdout (sink)"]
 ASSUMPTIONS = ["aggregates over random-size lists (sum/product/unique/in-list) are gated out of the "
